@@ -652,6 +652,8 @@ func fieldCellValues(base ssa.Value, idx int) ([]ssa.Value, bool) {
 					okAll = false
 				}
 			case *ssa.UnOp, *ssa.DebugRef:
+			case *ssa.Return:
+				// handing the object to the caller ends this function: loads inside it saw only the stores above
 			case *ssa.MakeClosure:
 				fn, _ := x.Fn.(*ssa.Function)
 				for bi, b := range x.Bindings {
